@@ -24,8 +24,10 @@ def run(tier):
                                                           "o1": attr("p1", "far", clockless=True, hop=(9, 1), desc=True),
                                                           "u3": attr("p1", "far", prev="p1", hasunk=True, unkf=("remove",), unkmore=2)})
     lifefam = dict(peers=P, enabled=ev + ["Advance", "CleanTick"], cat={"s1": attr("p1", "far", life="short"),
-                                                                        "a2": attr("p1", "far", prev="p1", clockless=True, hop=(9, 1)),
-                                                                        "a3": attr("p1", "far", clockless=True, life="short")})
+                                                                        "a2": attr("p1", "far", prev="p1", clockless=True, hop=(9, 1))})
+    # expiry by age (clock-less source), and a creation time AND an age block: there the creation time decides
+    lifefam2 = dict(peers=P, enabled=ev + ["Advance", "CleanTick"], cat={"a3": attr("p1", "far", clockless=True, life="short"),
+                                                                         "a4": attr("p1", "far", life="short", age=7)})
     # one bundle of a clock-less source: the age block must grow by the whole time spent here on every attempt, also after an
     # attempt that failed long after the reception (random deep behaviours; those with several attempts after Advance first)
     agefam = dict(peers=P, enabled=["Receive", "PeerUp", "SetFail", "RetryTick", "Advance"], cat={"g1": attr("p1", "far", clockless=True, hop=(9, 1))})
@@ -40,8 +42,9 @@ def run(tier):
         plans.append(dict(name="hop", fam=hopfam, algo=a, budget=3, steps=4 if quick else 5, cap=110 if quick else None, mc=not quick))
         plans.append(dict(name="blocks", fam=blkfam, algo=a, budget=3, steps=4 if quick else 5, sim=(20, 12) if quick else (400, 16), cap=130 if quick else None, mc=not quick or a == "epidemic"))
     for a in (["epidemic"] if quick else ALGOS):
-        plans.append(dict(name="lifetime", fam=lifefam, algo=a, budget=3, steps=5 if quick else 6, cap=70 if quick else 700, mc=not quick,
-                          prefer=lambda h: sum(len(st["exp"]["sends"]) for st in h) + 5 * [st["act"] for st in h].count("Advance")))
+        for nm, lf in (("lifetime", lifefam), ("lifetime-age", lifefam2)):
+            plans.append(dict(name=nm, fam=lf, algo=a, budget=3, steps=5 if quick else 6, cap=60 if quick else 700, mc=not quick,
+                              prefer=lambda h: sum(len(st["exp"]["sends"]) for st in h) + 5 * [st["act"] for st in h].count("Advance")))
     for a in (["epidemic"] if quick else ["epidemic", "spray", "prophet"]):
         plans.append(dict(name="age-retry", fam=agefam, algo=a, budget=3, steps=3, sim=(1500, 8) if quick else (20000, 10), cap=24 if quick else 300,
                           mc=False, prefer=late_attempts))
